@@ -585,7 +585,15 @@ func main() {
 		vio.Must(json.Unmarshal(line, &c), "case")
 		c.Raw = line
 		var rec M
-		if c.Kind == "cut" || c.Kind == "resume" {
+		if c.Kind == "len" {
+			fi := pbfmini.Build(c.Cfg.Cfg, c.Variant)
+			rec = M{"len": len(fi.Data)}
+			b, _ := json.Marshal(rec)
+			out.Write(b)
+			out.WriteByte('\n')
+			out.Flush()
+			continue
+		} else if c.Kind == "cut" || c.Kind == "resume" {
 			rec = runPlain(c)
 		} else if c.Kind == "jitter" {
 			if osmpbf.VerifHook == nil {
